@@ -2,9 +2,11 @@ package main
 
 func init() {
 	register(&propDef{ID: "C12", Title: "CNI multi-network ADD/DEL is ordered, paired, rolled back and isolated",
-		Explanation: "Decides: (R1) CmdAdd persists the network list before the first ADD, aborts on a failed save, rolls a failed ADD back through CmdDel starting at the failing index and returns a non-nil error, chains prevResult from the previous delegate; (R2) CmdDel consumes the state before any DEL, a missing state file succeeds without invoking anything, the loop index decreases, failed DELs are appended, reversed back into ADD order, re-saved and the DEL fails; (R3) in the request handler port mappings are set up only after a successful ADD, cleaned up when their setup fails, and removed only after a successful DEL; (R4) isolation: alias taint from the elements of Galaxy.netConf / NetworkConf reaches no map write, configuration is handed out as copies, and the table itself is written only on the way from Init; (R5) network selection (annotation / ENI network / defaults) and interface naming follow the documented order, and every common.* argument is copied to every network. (R6) the saved network list is removed only by consumeNetworkInfo (who-may-remove), CmdAdd touches it only through saveNetworkInfo and the rollback CmdDel, and the JSON form of the networks annotation is used as decoded (no field of a decoded entry is rewritten). Does not decide behaviour for every failure pattern or request sequence, nor what the plugin binary receives byte for byte. (R1, extended) the loop around DelegateDel is left only when exhausted (a failing delegate does not stop the walk). (R7) every path argument of the file operations in saveNetworkInfo / consumeNetworkInfo derives from the containerID parameter (no shared temporary file). (R8) DelegateAdd / DelegateDel have no nil-error return that does not pass invoke.ExecPlugin*.",
+		Explanation: "Decides: (R1) CmdAdd persists the network list before the first ADD, aborts on a failed save, rolls a failed ADD back through CmdDel starting at the failing index and returns a non-nil error, chains prevResult from the previous delegate; (R2) CmdDel consumes the state before any DEL, a missing state file succeeds without invoking anything, the loop index decreases, failed DELs are appended, reversed back into ADD order, re-saved and the DEL fails; (R3) in the request handler port mappings are set up only after a successful ADD, cleaned up when their setup fails, and removed only after a successful DEL; (R4) isolation: alias taint from the elements of Galaxy.netConf / NetworkConf reaches no map write, configuration is handed out as copies, and the table itself is written only on the way from Init; (R5) network selection (annotation / ENI network / defaults) and interface naming follow the documented order, and every common.* argument is copied to every network. (R6) the saved network list is removed only by consumeNetworkInfo (who-may-remove), CmdAdd touches it only through saveNetworkInfo and the rollback CmdDel, and the JSON form of the networks annotation is used as decoded (no field of a decoded entry is rewritten). Does not decide behaviour for every failure pattern or request sequence, nor what the plugin binary receives byte for byte. (R1, extended) the loop around DelegateDel is left only when exhausted (a failing delegate does not stop the walk). (R7) every path argument of the file operations in saveNetworkInfo / consumeNetworkInfo derives from the containerID parameter (no shared temporary file). (R8) DelegateAdd / DelegateDel have no nil-error return that does not pass invoke.ExecPlugin*. (R9) every success return of GetNetworkConfig passes ReadDir(confdir) (in the function or in a helper all of whose success returns pass it).",
 		Assumptions: []string{"alias taint is field-based and flow-insensitive (may over-approximate aliasing, never under-approximates within the module)", "nested maps inside a configuration are not tracked (only CmdAdd's top-level write exists today)"},
 		Run: func(c *Ctx) {
+			c.Rule("C12.R9", "the sub directories of confdir are always searched", 1)
+			ruleConfDirSubdirsAlwaysSearched(c, "C12.R9")
 			c.Rule("C12.R1", "CmdAdd / CmdDel ordering, pairing, rollback", 6)
 			ruleCniAddDel(c, "C12.R1")
 			c.Rule("C12.R2", "delegates receive Conf and IfName of the same entry", 1)
